@@ -9,11 +9,20 @@
 // except according to those terms.
 
 use cadence::StatsdClient;
+#[cfg(not(cadence_verif))]
 use std::cell::UnsafeCell;
 use std::error::Error;
 use std::fmt::{self, Display, Formatter};
+#[cfg(not(cadence_verif))]
 use std::sync::atomic::{AtomicUsize, Ordering};
 use std::sync::Arc;
+
+// Verification builds route the atomic state and the cell through pass-through
+// types that report each access to an installable tracer, see `verif.rs`.
+#[cfg(cadence_verif)]
+use crate::verif::{AtomicUsize, UnsafeCell};
+#[cfg(cadence_verif)]
+use std::sync::atomic::Ordering;
 
 const UNSET: usize = 0;
 const LOADING: usize = 1;
